@@ -664,3 +664,39 @@ def _():
         m_ = M(mn)
         ok = ok and m_.field_modulus == p_ and m_.curve_order == r_
     return ok, "Pocklington certificates verified for " + ", ".join(done + extra)
+
+
+@evaluator("fields.class-table")
+def _():
+    """the sixteen concrete field classes of py_ecc.fields carry the prime, the modulus coefficients and the degree of their
+    curve, inherit from the right file, and the curve modules use exactly these classes"""
+    F = M("py_ecc.fields")
+    R_, O_ = M("py_ecc.fields.field_elements"), M("py_ecc.fields.optimized_field_elements")
+    primes = {"bn128": P_BN, "bls12_381": P_BLS}
+    mods = {("bn128", 2): (1, 0), ("bn128", 12): (82, 0, 0, 0, 0, 0, -18, 0, 0, 0, 0, 0),
+            ("bls12_381", 2): (1, 0), ("bls12_381", 12): (2, 0, 0, 0, 0, 0, -2, 0, 0, 0, 0, 0)}
+    ok = True
+    bad = []
+    for opt in (False, True):
+        base = O_ if opt else R_
+        for curve, p in primes.items():
+            pre = ("optimized_" if opt else "") + curve + "_"
+            for suffix, parent in (("FQ", base.FQ), ("FQP", base.FQP), ("FQ2", base.FQ2), ("FQ12", base.FQ12)):
+                cls = getattr(F, pre + suffix, None)
+                good = cls is not None and issubclass(cls, parent) and cls.field_modulus == p
+                if good and suffix == "FQ2":
+                    good = tuple(cls.FQ2_MODULUS_COEFFS) == mods[(curve, 2)] and cls.degree == 2 and issubclass(cls, getattr(F, pre + "FQP"))
+                if good and suffix == "FQ12":
+                    good = tuple(cls.FQ12_MODULUS_COEFFS) == mods[(curve, 12)] and cls.degree == 12 and issubclass(cls, getattr(F, pre + "FQP"))
+                if not good:
+                    bad.append(pre + suffix)
+                ok = ok and good
+    for modname, pre in (("py_ecc.bn128.bn128_curve", "bn128_"), ("py_ecc.optimized_bn128.optimized_curve", "optimized_bn128_"),
+                         ("py_ecc.bls12_381.bls12_381_curve", "bls12_381_"), ("py_ecc.optimized_bls12_381.optimized_curve", "optimized_bls12_381_")):
+        m_ = M(modname)
+        for suffix in ("FQ", "FQP", "FQ2", "FQ12"):
+            if getattr(m_, suffix, None) is not getattr(F, pre + suffix):
+                ok = False
+                bad.append(f"{modname}.{suffix}")
+    return ok, "field_modulus, modulus coefficients, degree and base classes of the 16 classes of py_ecc.fields; the curve modules use them" + \
+        ("" if ok else " — wrong: " + ", ".join(bad[:6]))
